@@ -32,6 +32,10 @@ META = {
         "subject; here a read is identified by its address and length",
     ],
     "outside_claim": ["sequences longer than 4 operations",
+                      "views as context managers beyond the one unit: a view "
+                      "of 8..64 bytes or its slice [2:6], one write inside "
+                      "the block, four ways out (end, ValueError, OSError, "
+                      "an IOError from the machine)",
                       "code that needs the length of a view as a real int "
                       "(len()) on views of unbounded symbolic length: the "
                       "engine gives up after 64 values (inconclusive); the "
@@ -382,6 +386,75 @@ def h_alloc_view(ctx):
         mcm.SCPConnection = saved_conn
 
 
+def h_with_block(ctx):
+    """A view (the root or a slice of it) used as a context manager: however
+    the block is left -- normally, by an exception of the caller's, or by an
+    error the machine reported to a transfer inside the block (rig's SCP
+    errors are IOErrors) -- the view is closed afterwards: every operation
+    fails and nothing more reaches the machine."""
+    from rig.machine_control.machine_controller import MemoryIO
+    base = ctx.int("base", 0)
+    length = ctx.int("len", 8, 64)
+    mc = StubController()
+    fail = []
+
+    def write(address, data, x, y, p=0):
+        if fail:
+            raise IOError("SCP timeout (stub)")
+        mc.log.append(("w", address, len(data), x, y, p, data))
+    mc.write = write
+    root = MemoryIO(mc, 1, 2, base, base + length)
+    which = ctx.pick(["root", "slice"])
+    view = root if which == "root" else root[2:6]
+    how = ctx.pick(["normal", "ValueError", "machine error", "OSError"])
+    entered = None
+    left = "normal"
+    try:
+        with view as g:
+            entered = g
+            g.write(ctx.bytes("w", 2))
+            if how == "ValueError":
+                raise ValueError("the caller's own")
+            if how == "OSError":
+                raise OSError("the caller's own")
+            if how == "machine error":
+                fail.append(1)
+                g.write(b"zz")
+    except Exception as e:
+        left = type(e).__name__
+    del fail[:]
+    ctx.observe(which, how, left)
+    ctx.witness("left-by-" + ("exception" if left != "normal" else "end"))
+    # (what `with ... as` binds is not stated by the property: the view
+    # itself is used below)
+    mark = len(mc.log)
+    still = []
+    for name, call in (("read", lambda: view.read(1)),
+                       ("write", lambda: view.write(b"q")),
+                       ("seek", lambda: view.seek(0)),
+                       ("tell", lambda: view.tell()),
+                       ("flush", lambda: view.flush())):
+        try:
+            call()
+            still.append(name)
+        except OSError:
+            pass
+        except Exception as e:
+            still.append("%s: %s" % (name, type(e).__name__))
+    ctx.prove(not still, "view-open-after-with-block", (which, how, still))
+    ctx.prove(len(mc.log) == mark, "view-closed-view-reaches-machine",
+              (which, how, len(mc.log) - mark))
+    if which == "slice":
+        # the view the slice was taken from is another file: still open
+        try:
+            root.seek(0)
+            root.read(1)
+            ok = True
+        except Exception:
+            ok = False
+        ctx.prove(ok, "view-close-of-slice-closed-parent", how)
+
+
 def h_step(ctx):
     """Non-contiguous slices are rejected (concrete, one path)."""
     from rig.machine_control.machine_controller import MemoryIO
@@ -421,6 +494,9 @@ def units(tier, seed):
                    dict(nops=2, wlens=(1, 3), maxlen=5), split=4,
                    witnesses=("access", "read-data", "write-data", "sliced",
                               "dead-op", "freed")))
+    us.append(Unit("view as a context manager, every way out of the block",
+                   h_with_block, {},
+                   witnesses=("left-by-end", "left-by-exception")))
     for u in us:
         u.max_concretise = 64
     if tier == "thorough":
